@@ -24,7 +24,7 @@ for p in props:
 na = [{"property_id": p, "reason": NOT_APPLICABLE.get(p, "check not built yet (work in progress; see DESIGN.md section 10)")} for p in props if p not in chk.PROPS]
 m = {
     "version": 1,
-    "setup_cmd": "python3 vbuild.py fast san",
+    "setup_cmd": "python3 vbuild.py fast san acc tsan && ./check prebuild",
     "hooks": {
         "guard": "THEO_IDE_LIBTHEO_VERIF",
         "enable": "none needed: no source hooks exist; harness translation units are compiled with -fno-access-control to read private VM state, the C18 scheduler uses -fsanitize=thread callbacks with its own runtime",
